@@ -248,7 +248,7 @@ def run_property(prop, tier, seed):
             if b.get('script'):
                 # a stand-in that needs an oracle beside the driver: a script under /verif/tools that calls the driver itself
                 import subprocess
-                sargs = list(b.get('args', [])) + (list(b.get('thorough_args', [])) if tier == 'thorough' else []) + (['--seed', str(seed)] if b.get('seeded') else [])
+                sargs = list(b.get('args', [])) + (list(b.get('thorough_args', [])) if tier == 'thorough' else list(b.get('quick_args', []))) + (['--seed', str(seed)] if b.get('seeded') else [])
                 try:
                     sp = subprocess.run([sys.executable, os.path.join(HERE, 'tools', b['script'])] + sargs, capture_output=True, text=True, timeout=3000)
                     rr = {'ok': sp.returncode == 0, 'stdout': sp.stdout, 'error': (sp.stdout + sp.stderr)[-500:]}
